@@ -243,6 +243,68 @@ theorem representation_independent_ext (ops : List (Env × XOp)) (fs1 fs2 : FS)
   · rw [habs]; exact a2
   · rw [b1, b2, habs]
 
+/-- The read-only operations of the cache surface: keyed read, lookup, by-address read, `exists`. -/
+def isRead : COp → Bool
+  | .get _ => true
+  | .index (.look _) => true
+  | .addr (.get _) => true
+  | .addr (.has _) => true
+  | _ => false
+
+theorem cSpecStep_read (env : Env) (m : AbsCache) (op : COp) (h : isRead op = true) :
+    (cSpecStep cfg env m op).1 = m := by
+  cases op with
+  | put fl key o chunks => cases h
+  | get key => rfl
+  | index op => cases op <;> first | rfl | cases h
+  | addr op => cases op <;> first | rfl | cases h
+
+/-- The answers of the operations that are not reads, in order. -/
+def writeAnswers : List (Env × COp) → List COut → List COut
+  | x :: ops, o :: outs => if isRead x.2 then writeAnswers ops outs else o :: writeAnswers ops outs
+  | _, _ => []
+
+theorem cSpecRun_drop_reads (ops : List (Env × COp)) (m : AbsCache) :
+    (cSpecRun cfg (ops.filter (fun x => !isRead x.2)) m).1 = writeAnswers ops (cSpecRun cfg ops m).1 ∧
+    (cSpecRun cfg (ops.filter (fun x => !isRead x.2)) m).2 = (cSpecRun cfg ops m).2 := by
+  induction ops generalizing m with
+  | nil => exact ⟨rfl, rfl⟩
+  | cons x ops ih =>
+    obtain ⟨env, op⟩ := x
+    cases hr : isRead op with
+    | true =>
+      have hs := cSpecStep_read cfg env m op hr
+      simp only [List.filter_cons, hr, Bool.not_true, cSpecRun, writeAnswers, hs]
+      simpa using ih m
+    | false =>
+      simp only [List.filter_cons, hr, Bool.not_false, cSpecRun, writeAnswers]
+      obtain ⟨i1, i2⟩ := ih (cSpecStep cfg env m op).1
+      refine ⟨?_, ?_⟩
+      · show (cSpecStep cfg env m op).2 :: (cSpecRun cfg _ (cSpecStep cfg env m op).1).1 = _
+        rw [i1]
+        simp
+      · show (cSpecRun cfg _ (cSpecStep cfg env m op).1).2 = _
+        rw [i2]
+
+/-- **Reads are invisible in every history** (C15 "reads do not mutate", at history level): take any
+sequence of cache operations on a healthy cache and delete every keyed read, lookup, by-address
+read and `exists` from it — every remaining operation answers exactly what it answered in the full
+history, and the final abstract cache is the same.  No read, wherever it is placed and whatever it
+is asked for (also a missing key, an unusable integrity), changes what any later call sees. -/
+theorem reads_invisible (ops : List (Env × COp)) (fs : FS) (h : Healthy cfg cache fs) (hl : HexLen cfg)
+    (hops : ∀ x ∈ ops, x.2.WF cfg) :
+    (cRunOps cfg cache (ops.filter (fun x => !isRead x.2)) fs).1 =
+      writeAnswers ops (cRunOps cfg cache ops fs).1 ∧
+    absCache cfg cache (cRunOps cfg cache (ops.filter (fun x => !isRead x.2)) fs).2 =
+      absCache cfg cache (cRunOps cfg cache ops fs).2 := by
+  have hops' : ∀ x ∈ ops.filter (fun x => !isRead x.2), x.2.WF cfg :=
+    fun x hx => hops x (List.mem_filter.mp hx).1
+  obtain ⟨a1, b1, _⟩ := cache_refines_map cfg cache ops fs h hl hops
+  obtain ⟨a2, b2, _⟩ := cache_refines_map cfg cache _ fs h hl hops'
+  obtain ⟨s1, s2⟩ := cSpecRun_drop_reads cfg ops (absCache cfg cache fs)
+  rw [a2, b2, a1, b1, s1, s2]
+  exact ⟨rfl, rfl⟩
+
 namespace AxiomCheckSpecLaws
 open Cacache.SpecLaws
 #print axioms removeFullySpec_idem
@@ -252,6 +314,7 @@ open Cacache.SpecLaws
 #print axioms clear_twice
 #print axioms representation_independent
 #print axioms representation_independent_ext
+#print axioms reads_invisible
 end AxiomCheckSpecLaws
 
 end Cacache.SpecLaws
